@@ -12,7 +12,7 @@ from . import common as C
 
 PID = "C04"
 SHARDS = {"quick": 4, "thorough": 16}
-N = {"quick": 3000, "thorough": 100000}
+N = {"quick": 3500, "thorough": 115000}
 
 
 def new_run():
@@ -20,7 +20,11 @@ def new_run():
                "cases = (schema spec with random parsing options, table, schema kind in "
                "{DataFrameSchema, SeriesSchema, Column, Index, MultiIndex, polars DataFrameSchema "
                "on DataFrame / LazyFrame, polars Column}, lazy flag, input aliasing in {fresh, "
-               "column-subset view, row-slice view, series taken from a frame}); the argument is "
+               "column-subset view, row-slice view, series taken from a frame}); one case in seven "
+               "is a multi-step ownership sequence: 2-3 validations with the SAME schema object "
+               "(or the same DataFrameModel) of objects derived from earlier results, which the "
+               "caller edits in place in between (raw column / NaN cell / added column / retyped "
+               "column / raw index), also after a failing first validation; the argument is "
                "deep-snapshotted before and after the real validate(inplace=False); non-trivial = "
                "a parsing option is active or validation fails; distinct = canonical hash",
                ["snapshot = labels, dtypes, raw value bytes / typed cell reprs, index, names"])
@@ -33,7 +37,8 @@ def alias(rng, data, run):
         if r < 0.25 and data.shape[1] >= 1:
             wide = data.copy()
             wide["__pad"] = 0
-            return wide[list(data.columns)], wide, "column_subset"
+            # positional: a list of labels holding False / True would be read as a mask
+            return wide.iloc[:, : data.shape[1]], wide, "column_subset"
         if r < 0.45 and len(data) >= 1:
             tall = pd.concat([data, data]) if data.index.is_unique is False else \
                 pd.concat([data, data.iloc[:0]])
@@ -165,13 +170,156 @@ def polars_case(run, rng, i):
         observe(run, schema.columns[n], data, {"lazy": rng.random() < 0.5}, "polars.Column", spec, table)
 
 
+_MODEL_SEQ = [0]
+
+
+def lossy_model(spec):
+    """A DataFrameModel carrying the parsing options of ``spec`` (dtype,
+    nullable, unique, coerce, default, regex, required, the first check of each
+    kind; strict / ordered / coerce / add_missing_columns / drop_invalid_rows).
+    It does not have to mean the same as the spec: C04 only watches the
+    argument of validate.  ``Model.to_schema()`` is cached, so every
+    ``Model.validate`` goes through the same schema object."""
+    import typing
+    import pandera as pa
+    ann = {"int64": int, "float64": float, "str": str, "bool": bool, "datetime": pa.DateTime}
+    ns, annotations = {}, {}
+    for k, fs in enumerate(spec["columns"]):
+        kw = dict(nullable=fs.get("nullable", False), unique=fs.get("unique", False),
+                  coerce=fs.get("coerce", False), regex=fs.get("regex", False), alias=fs["name"])
+        if fs.get("default") is not None:
+            kw["default"] = B._val(fs["dtype"], fs["default"])
+        for c in fs.get("checks", []):
+            a = B._args(fs["dtype"], c["args"])
+            if c["kind"] in kw:
+                continue
+            if c["kind"] in ("eq", "ne", "gt", "ge", "lt", "le", "isin", "notin", "str_matches",
+                             "str_contains", "str_startswith", "str_endswith"):
+                kw[c["kind"]] = list(a.values())[0]
+            else:
+                kw[c["kind"]] = a
+        t = ann[fs["dtype"]]
+        annotations[f"f{k}"] = t if fs.get("required", True) else typing.Optional[t]
+        ns[f"f{k}"] = pa.Field(**kw)
+    cfg = {"strict": spec.get("strict", False), "ordered": spec.get("ordered", False),
+           "coerce": spec.get("coerce", False),
+           "add_missing_columns": spec.get("add_missing_columns", False),
+           "drop_invalid_rows": spec.get("drop_invalid_rows", False)}
+    ns["Config"] = type("Config", (), cfg)
+    ns["__annotations__"] = annotations
+    ns["__module__"] = __name__
+    _MODEL_SEQ[0] += 1
+    return type(f"SeqModel{_MODEL_SEQ[0]}", (pa.DataFrameModel,), ns)
+
+
+def edit_in_place(rng, cur, raw, table):
+    """The caller edits the frame he owns, in place (the Python object and
+    whatever is attached to it stay).  Returns the names of the edits."""
+    done = []
+    if isinstance(cur, pd.Series):
+        for how in rng.sample(["nan_cell", "raw_values", "raw_index"], rng.randint(1, 2)):
+            try:
+                if how == "nan_cell" and len(cur):
+                    cur.iloc[rng.randrange(len(cur))] = np.nan
+                elif how == "raw_values" and len(cur) == len(raw) and cur.dtype == object:
+                    cur[:] = raw.to_numpy()
+                elif how == "raw_index" and len(cur) == len(raw):
+                    cur.index = raw.index.copy()
+                else:
+                    continue
+            except Exception as e:
+                done.append(f"{how}:refused:{type(e).__name__}")
+                continue
+            done.append("series_" + how)
+        return done
+    dup = C.has_dup_labels(table) or not cur.columns.is_unique
+    common = [c for c in cur.columns if c in raw.columns] if not dup else []
+    for how in rng.sample(["raw_column", "nan_cell", "add_column", "retype", "raw_index", "extra_column"],
+                          rng.randint(1, 3)):
+        try:
+            if how == "raw_column" and common and len(cur) == len(raw):
+                name = rng.choice(common)
+                cur[name] = raw[name].to_numpy()
+            elif how == "nan_cell" and common and len(cur):
+                name = rng.choice(common)
+                cur.loc[cur.index[rng.randrange(len(cur))], name] = np.nan
+            elif how == "add_column":
+                cur["__new"] = 0
+            elif how == "extra_column" and len(cur.columns) and not dup:
+                cur["extra1"] = 1.5
+            elif how == "retype" and common:
+                name = rng.choice(common)
+                cur[name] = cur[name].astype(object)
+            elif how == "raw_index" and len(cur) == len(raw):
+                cur.index = raw.index.copy()
+            else:
+                continue
+        except Exception as e:      # an edit pandas refuses is no edit
+            done.append(f"{how}:refused:{type(e).__name__}")
+            continue
+        done.append(how)
+    return done
+
+
+def sequence_case(run, rng, i):
+    """Multi-step ownership: ``out = schema.validate(df)``; the caller edits
+    ``out`` in place; ``schema.validate(out)`` (same schema object, or the same
+    DataFrameModel) must leave ``out`` untouched.  2-3 validations of objects
+    derived from earlier results; after a failing validation the (edited)
+    input is validated again."""
+    spec, table, opts, muts = P.gen_parse_case(rng, kind="frame" if rng.random() < 0.8 else "series",
+                                               mutate_p=0.3)
+    try:
+        data = B.pandas_table(spec, table)
+        schema = B.pandas_schema(spec)
+    except Exception as e:
+        run.count("build_error:" + type(e).__name__)
+        return
+    via = "schema" if spec["kind"] == "frame" else "series_schema"
+    validator = schema
+    if spec["kind"] == "frame" and not spec.get("index") and rng.random() < 0.35 \
+            and all(isinstance(fs["name"], str) for fs in spec["columns"]):
+        try:
+            validator = lossy_model(spec)
+            validator.to_schema()
+            via = "model"
+        except Exception as e:
+            run.count("sequence:model_build_error:" + type(e).__name__)
+            validator = schema
+    raw = data.copy(deep=True)
+    lazy = bool(spec.get("drop_invalid_rows")) or rng.random() < 0.4
+    steps = rng.choice([2, 2, 3])
+    run.case(canon_hash(["sequence", via, spec, table, lazy, steps]), True,
+             sample={"sequence": True, "via": via, "spec": spec, "table": table, "options": opts,
+                     "lazy": lazy, "steps": steps})
+    run.count(f"sequence:via:{via}")
+    cur, first_failed = data, False
+    for step in range(steps):
+        what = f"sequence:{via}:step{step}"
+        out = observe(run, validator, cur, {"lazy": lazy}, what, spec, table)
+        if step > 0:
+            run.count("sequence:derived_object_snapshot_compared")
+            run.count("sequence:after_" + ("failed" if first_failed else "passed") + "_first_validation")
+        if step == 0:
+            first_failed = not out.accepted
+        if out.accepted and isinstance(out.result, (pd.DataFrame, pd.Series)):
+            cur = out.result          # the caller owns what validate returned
+        if step + 1 < steps:
+            for e in edit_in_place(rng, cur, raw, table):
+                run.count(f"sequence:edit:{e.split(':')[0]}")
+
+
 def run(run, ctx):
     for i in ctx.cases(N[ctx.tier]):
         rng = ctx.rng(PID, i)
-        if i % 3 == 2:
+        if i % 7 == 3:
+            sequence_case(run, rng, i)
+        elif i % 3 == 2:
             polars_case(run, rng, i)
         else:
             pandas_case(run, rng, i)
+        C.report_context_leaks(run, {"case": i})
+    C.finish_context_monitor(run)
 
 
 def finalize(run, ctx):
@@ -179,5 +327,13 @@ def finalize(run, ctx):
                     ("owner_snapshot_compared", 150), ("outcome:Column:ok", 100),
                     ("outcome:Index:ok", 30), ("outcome:SeriesSchema:ok", 30),
                     ("outcome:polars.Column:ok", 100), ("alias:column_subset", 50),
-                    ("alias:row_slice", 50)]:
+                    ("alias:row_slice", 50),
+                    # multi-step ownership sequences
+                    ("sequence:derived_object_snapshot_compared", 160),
+                    ("sequence:after_failed_first_validation", 35),
+                    ("sequence:after_passed_first_validation", 120),
+                    ("sequence:via:model", 18), ("sequence:via:series_schema", 20),
+                    ("sequence:edit:raw_column", 35), ("sequence:edit:nan_cell", 30),
+                    ("sequence:edit:add_column", 40), ("option:falsy_labels", 100),
+                    ("config_monitor:validate_calls_bracketed", 2300)]:
         run.floors[name] = m
